@@ -106,6 +106,7 @@ def handleSchedRun : Toks → Option String :=
       showMon "c05" none_ (retries c ls), showMon "c06" none_ (limit c ls),
       showMon "c07" (knownC07 c ls iso) (iso.map (·.1)), showMon "c08" none_ (SMon.failFast c ls),
       showMon "c02" none_ (attemptShapes c ls),
-      showMon "c01" (knownC01 ls (verdictMon ls)) (verdictMon ls)])) ts
+      showMon "c01" (knownC01 ls (verdictMon ls)) (verdictMon ls),
+      showMon "c10" none_ (hookWindow ls)])) ts
 
 end Cuke.Driver
